@@ -33,6 +33,8 @@ type c04Case struct {
 	// NoAccept (soft cancel only): the transport takes no byte at all after the cancel. The operations in flight
 	// at that moment must still return; operations issued afterwards are known finding F13 and are not issued.
 	NoAccept bool
+	// Deadline: the context of the RPC under test ends as an expired deadline does (context.DeadlineExceeded)
+	Deadline bool
 }
 
 // weighted choice alphabet for C04: grants are frequent so that several operations are in
@@ -97,6 +99,7 @@ func genC04(t *rapid.T) c04Case {
 	}
 	c.Choices = rapid.SliceOfN(rapid.SampledFrom(c04Kinds), 0, 40).Draw(t, "choices")
 	c.NoAccept = rapid.Bool().Draw(t, "noaccept")
+	c.Deadline = rapid.IntRange(0, 2).Draw(t, "deadline") == 0
 	return c
 }
 
@@ -125,7 +128,14 @@ func runC04(c c04Case) (r pbt.Result) {
 	if c.Term != "" {
 		term = []sim.Step{{Op: c.Term}}
 	}
-	rpc := sim.RPC{NoFinalClose: true, Handler: sim.Prog{Steps: hsteps},
+	ctxErr := context.Canceled
+	if c.Deadline {
+		ctxErr = context.DeadlineExceeded
+	}
+	if c.Deadline {
+		r.Label("context_ended_by_deadline")
+	}
+	rpc := sim.RPC{NoFinalClose: true, Deadline: c.Deadline, Handler: sim.Prog{Steps: hsteps},
 		CSubs: []sim.Prog{{Steps: sends}, {Steps: c.Sends2}, {Steps: recvSteps}, {Steps: term}}}
 	rpc1 := sim.RPC{Unary: true, ReqSize: 3, CSubs: []sim.Prog{{Steps: []sim.Step{{Op: "cancel"}}}},
 		Handler: sim.Prog{Steps: []sim.Step{{Op: "recv"}, {Op: "send", Size: 1}, {Op: "ret"}}}}
@@ -301,11 +311,11 @@ func runC04(c c04Case) (r pbt.Result) {
 			// known finding F14: soft cancel, busy path closes the transport before the stream's cancel
 			// signal is set, so a receive parked in its first flush may report the transport's error.
 			r.Excluded = "F14"
-		case op.Op == "recv" && soleCause && !errors.Is(op.Err, context.Canceled):
+		case op.Op == "recv" && soleCause && !errors.Is(op.Err, ctxErr):
 			fail("blocked receive did not report the context's error")
 			r.Detailf("err=%v", op.Err)
 			return
-		case op.Op == "send" && soleCause && !soft && sendInTransport[op.Actor] && !errors.Is(op.Err, context.Canceled):
+		case op.Op == "send" && soleCause && !soft && sendInTransport[op.Actor] && !errors.Is(op.Err, ctxErr):
 			fail("send blocked in the transport (default cancel mode) did not report the context's error")
 			r.Detailf("err=%v", op.Err)
 			return
